@@ -222,6 +222,7 @@ class C18(Check):
 
         for op in case['ops']:
             before = snapshot()
+            hw_before = dict(hw['st'])
             reply = None
             exc = None
             g, k, who = op['group'], op['kind'], op['who']
@@ -338,7 +339,7 @@ class C18(Check):
             time.sleep(0.05)
             hw['fail'] = None
             steps.append({'op': op, 'before': before, 'after': snapshot(), 'reply': reply, 'exc': exc,
-                          'also_done': side is not None, 'hw_st': dict(hw['st']),
+                          'also_done': side is not None, 'hw_st': hw_before,
                           'xlog': list(hw.get('xlog', ()))})
             hw['xlog'] = []
         cl.close()
@@ -377,7 +378,8 @@ class C18(Check):
                 else:
                     want[op['m']] = op['mv']
                 written = set(op['v']) if op['kind'] == 'struct' else {op['m']}
-                # (a member not written may also have been refreshed from the hardware by the poller meanwhile)
+                # (a member not written may also have been refreshed by the poller with the value the hardware held
+                # before this operation)
                 if any(abs(want[m] - a['st'].get(m, float('nan'))) > 1e-9 and
                        (m in written or abs(s['hw_st'][m] - a['st'].get(m, float('nan'))) > 1e-9)
                        for m in shape['members']):
